@@ -419,8 +419,26 @@ class Engine:
                 return EXC_ALIAS.get(nm, nm)
         return None
 
+    # attributes of opaque library objects that are modelled: observer spec function, classes that have the
+    # attribute (CLSID), range of the value (a fact about every such object)
+    OBJ_ATTRS = {"hour": ("tod_hour", (1, 3), 0, 24), "minute": ("tod_minute", (1, 3), 0, 60),
+                 "second": ("tod_second", (1, 3), 0, 60), "microsecond": ("tod_micro", (1, 3), 0, 1000000)}
+
     def obj_attr(self, ex, st, base, attr):
-        raise Unsupported(f"attribute {attr} of an opaque object")
+        spec = self.OBJ_ATTRS.get(attr)
+        if spec is None:
+            raise Unsupported(f"attribute {attr} of an opaque object")
+        fname, classes, lo, hi = spec
+        t = S.box(base) if base.ty != "py" else base.t
+        cond = z3.And(Py.is_obj(t), z3.Or(*[Py.cls(t) == c for c in classes]))
+        for st1, r in ex.need(st, cond, "AttributeError", f"attr.{attr}"):
+            if r is not None:
+                yield st1, r
+                continue
+            v = self.spec_apply("spec.core", fname, [V("py", t)])
+            st1.assume(z3.And(v.t >= lo, v.t < hi))
+            self.assumptions_used.add("datetime.time / datetime.datetime objects: hour, minute, second, microsecond are in range (library invariant)")
+            yield st1, v
 
     def generator_target(self, ex, st, callnode):
         """if `callnode` calls a generator function of the repo -> (fi, selfref, args, kwargs)"""
